@@ -99,8 +99,9 @@ def main():
     known = hint.get('known', [])
     todo = [(f['form'], tuple(X.kind_from_json(k) for k in f['kinds']), f['named']) for f in failing]
     # numeric cross-check of a random sample of the whole enumeration (bound 4)
-    shp = X.shapes(4)
-    while len(todo) < 4000:
+    thorough = hint.get('tier') == 'thorough'
+    shp = X.shapes(6 if thorough else 4)
+    while len(todo) < (30000 if thorough else 4000):
         form = rnd.choice(list(X.BINOPS) + list(X.AGGS) + list(X.COMPOSITE))
         if form in X.BINOPS:
             kinds = (rnd.choice(shp + ['S', 'N']), rnd.choice(shp))
